@@ -420,6 +420,10 @@ def impl(op, backend):
         return "ok %d %d %d %d %d %d" % (a == b, a != b, a < b, a <= b, a > b, a >= b)
     _, o, L, R = op
     a = build(L)
+    # operands whose lazily cached accessors were (or were not) read before the operation: must not matter
+    import zlib
+    if zlib.crc32(repr(op).encode()) % 2 and hasattr(a, "remaining_seconds"):
+        _ = (a.remaining_seconds, a.minutes, a.hours, a.invert)
     if o in UNARY:
         r = _OPS[o](a)
     else:
